@@ -167,7 +167,7 @@ def run(ctx):
         add_parse(s, di, "corpus:" + name)
 
     # ---- (a) valid caps of every kind
-    nvalid = ctx.n(162, 1200)
+    nvalid = ctx.n(126, 1200)
     huge_left = ctx.n(3, 10)
     for i in range(nvalid):
         r = ctx.rng("valid", i)
@@ -217,7 +217,7 @@ def run(ctx):
             add_parse(base[:-1] + bytes([ch]) if ln else base + bytes([ch]), False, "tail-lit:%d" % (ln % 5))
 
     # ---- (b) mutated strings and random printable strings
-    nmut = ctx.n(340, 2500)
+    nmut = ctx.n(260, 2500)
     huge_left = ctx.n(3, 10)
     for i in range(nmut):
         r = ctx.rng("mut", i)
@@ -269,7 +269,7 @@ def run(ctx):
 def base32_part(ctx):
     from allmydata.util import base32
     terms, info = [], []
-    n = ctx.n(90, 600)
+    n = ctx.n(60, 600)
     for i in range(n):
         r = ctx.rng("b32", i)
         ln = i if i <= 41 else r.choice([48, 55, 56, 57, 64, 80, 100, 129])
